@@ -209,6 +209,10 @@ pub struct Sched {
 }
 
 pub struct Sim {
+    /// set by the harness when it gives up on threads that will never finish (a verdict was
+    /// already reached): `run` then returns without joining them and the process must not be
+    /// used for another simulation
+    pub abandoned: std::sync::atomic::AtomicBool,
     st: Mutex<Sched>,
     pub cfg: SimConfig,
     pub generation: u64,
@@ -989,6 +993,7 @@ where
         max_threads: 1,
     };
     let sim = Arc::new(Sim {
+        abandoned: std::sync::atomic::AtomicBool::new(false),
         st: Mutex::new(sched),
         cfg,
         generation,
@@ -1013,7 +1018,13 @@ where
     let r = os.join().expect("sim main thread");
     // all simulated threads are finished (child_exit_main guarantees it); the OS threads may
     // still be unwinding their TLS, which touches nothing of ours.
-    CUR.store(std::ptr::null_mut(), Ordering::Release);
+    if sim.abandoned.load(Ordering::SeqCst) {
+        // parked threads still reference the simulation: keep it alive for the rest of the
+        // process, which the caller ends after reporting
+        std::mem::forget(sim.clone());
+    } else {
+        CUR.store(std::ptr::null_mut(), Ordering::Release);
+    }
     match r {
         Ok(v) => (v, sim),
         Err(p) => std::panic::resume_unwind(p),
@@ -1044,6 +1055,9 @@ impl Sim {
     fn child_exit_main(&self) {
         let me = 0usize;
         loop {
+            if self.abandoned.load(Ordering::SeqCst) {
+                break;
+            }
             let others = self.live_other_threads(me);
             if others == 0 {
                 break;
